@@ -120,6 +120,8 @@ pub fn solve_real_lp_problem_micro_lp(lp: &LinearModel) -> Result<LpSolution<f64
 
     let obj = lp.objective();
     let mut vars_microlp = Vec::with_capacity(obj.len());
+    // negative halves of free variables, see below
+    let mut negative_parts: Vec<Option<microlp::Variable>> = vec![None; obj.len()];
     for (i, name) in variables.iter().enumerate() {
         let domain = if let Some(domain) = domain.get(name) {
             domain
@@ -130,6 +132,15 @@ pub fn solve_real_lp_problem_micro_lp(lp: &LinearModel) -> Result<LpSolution<f64
             )));
         };
         let var = match domain.get_type() {
+            // microlp mishandles variables without any finite bound (wrong
+            // Unbounded verdicts, internal errors, endless pivoting), so a free
+            // variable is handed over as the difference of two non-negative ones
+            VariableType::Real(min, max)
+                if *min == f64::NEG_INFINITY && *max == f64::INFINITY =>
+            {
+                negative_parts[i] = Some(problem.add_var(-obj[i], (0.0, f64::INFINITY)));
+                problem.add_var(obj[i], (0.0, f64::INFINITY))
+            }
             VariableType::NonNegativeReal(min, max) => problem.add_var(obj[i], (*min, *max)),
             VariableType::Real(min, max) => problem.add_var(obj[i], (*min, *max)),
             _ => {
@@ -146,12 +157,17 @@ pub fn solve_real_lp_problem_micro_lp(lp: &LinearModel) -> Result<LpSolution<f64
     }
 
     for cons in lp.constraints() {
-        let coeffs = cons
+        let mut coeffs = cons
             .coefficients()
             .iter()
             .zip(vars_microlp.iter())
             .map(|(c, v)| (*v, *c))
             .collect::<Vec<_>>();
+        for (negative, c) in negative_parts.iter().zip(cons.coefficients().iter()) {
+            if let Some(negative) = negative {
+                coeffs.push((*negative, -*c));
+            }
+        }
         let rhs = cons.rhs();
         let comparison = match cons.constraint_type() {
             Comparison::LessOrEqual => microlp::ComparisonOp::Le,
@@ -182,9 +198,13 @@ pub fn solve_real_lp_problem_micro_lp(lp: &LinearModel) -> Result<LpSolution<f64
             let assignment = variables
                 .iter()
                 .zip(vars_microlp.iter())
-                .map(|(name, c)| Assignment {
+                .zip(negative_parts.iter())
+                .map(|((name, c), negative)| Assignment {
                     name: name.clone(),
-                    value: optimal_solution[*c],
+                    value: match negative {
+                        Some(negative) => optimal_solution[*c] - optimal_solution[*negative],
+                        None => optimal_solution[*c],
+                    },
                 })
                 .collect::<Vec<_>>();
             let coeffs = assignment.iter().map(|v| v.value).collect();
